@@ -8,6 +8,7 @@ locals are invisible; attribute/function names written literally are matched lit
 import ast
 import re
 
+from . import alpha
 from .cfg import walk_noscope
 
 _MV = "__mv_"
@@ -34,7 +35,14 @@ def _compile(pattern):
 
 
 def _eq(a, b):
-    return ast.unparse(a) == ast.unparse(b)
+    if ast.unparse(a) == ast.unparse(b):
+        return True
+    # a metavariable bound to an alias local at its definition (`$c = $A.CCS`) meets the propagated chain at the uses
+    if isinstance(a, ast.Name):
+        key = alpha.OWNER.get(id(b))
+        if key is not None and alpha.CUR_ALIASES.get(key, {}).get(a.id) == ast.unparse(b):
+            return True
+    return False
 
 
 def _match(p, n, env):
@@ -80,9 +88,24 @@ def _match(p, n, env):
     return True
 
 
+_rcache = {}
+
+
+def _resolved(pattern, node):
+    """pattern AST read under the alias table of the function that owns `node` (engine/alpha.py)"""
+    p = _compile(pattern)
+    key, aliases = alpha.pattern_aliases(node)
+    if not aliases:
+        return p
+    ck = (pattern, key)
+    if ck not in _rcache:
+        _rcache[ck] = alpha.resolve_pattern(p, aliases)
+    return _rcache[ck]
+
+
 def match(pattern, node, env=None):
     """bindings dict (name -> ast node) or None."""
-    p = _compile(pattern)
+    p = _resolved(pattern, node)
     if isinstance(node, ast.Expr) and not isinstance(p, ast.stmt):
         node = node.value
     e = Bindings(env or {})
@@ -91,7 +114,7 @@ def match(pattern, node, env=None):
 
 def search(pattern, root, env=None):
     """all (node, bindings) under root (not descending into nested scopes) matching pattern."""
-    p = _compile(pattern)
+    p = _resolved(pattern, root)
     out = []
     for n in walk_noscope(root):
         if type(n) is type(p) or (isinstance(p, ast.Name) and p.id.startswith(_MV)):
